@@ -96,6 +96,18 @@ def run(tier, seed):
                                               sv.closest(nobody, tgt) is None))
                                 facts.append((':scope is the call target', sv.match(':scope', tgt) and sv.select(':scope', tgt) == [] and
                                               sv.closest(':scope', tgt) is tgt and sv.match('&', tgt)))
+                                # in closest() too, :scope stays the call target while the ancestors are examined
+                                par = tgt.parent if isinstance(tgt.parent, bs4.Tag) and not isinstance(tgt.parent, bs4.BeautifulSoup) else None
+                                facts.append(('closest(":not(:scope)") is the parent element (or None)', sv.closest(':not(:scope)', tgt) is par and
+                                              sv.closest(':not(&)', tgt) is par))
+                                facts.append(('closest(":has(> :scope)") is the parent element (or None)', sv.closest(':has(> :scope)', tgt) is par))
+                                facts.append(('closest("*|*:scope") is the call target', sv.closest('*|*:scope', tgt) is tgt))
+                                other = next((a for a in tgt.parents if isinstance(a, bs4.Tag) and not isinstance(a, bs4.BeautifulSoup)
+                                              and a.name.lower() != tgt.name.lower()), None)
+                                if other is not None:
+                                    facts.append(('closest("E:scope") with E the type of an ancestor but not of the call target is None',
+                                                  sv.closest('*|' + sv.escape(other.name) + ':scope', tgt) is None and
+                                                  sv.closest('*|' + sv.escape(other.name) + '&', tgt) is None))
                                 facts.append((':scope denotes only the call target (not an equal-looking sibling)',
                                               not sv.match(':scope ~ *', tgt) and not sv.match(':scope *', tgt) and
                                               not sv.match('* ~ :scope ~ *', tgt)))
